@@ -64,6 +64,8 @@ type Sched struct {
 	// OnState, when set, receives a hash of the global protocol state (shared counter + point and observed
 	// value of every parked task) each time all live tasks are parked, i.e. before every scheduling decision
 	OnState func(h uint64)
+	// BranchAfterPublish widens the enumeration (see branching)
+	BranchAfterPublish bool
 }
 
 var errInjected = errors.New("injected task failure")
@@ -149,6 +151,12 @@ func (s *Sched) Run(n int, op func()) (deadlock, livelock bool, err error) {
 			return e.side == 1 // decode enters the wait loop right after start
 		case pIOEND:
 			return e.side == 1 // decode publishes right after the shared read
+		case pPUBLISHED:
+			// decode, right after publishing: the real code does not touch the counter again from here, so this is
+			// not a conflict point of the protocol as written - but a change that adds such an access (a re-read of
+			// the counter for the range test, say) would hide behind the reduction. Plans that ask for it let the
+			// successor overtake here too.
+			return s.BranchAfterPublish
 		}
 		return false
 	}
